@@ -843,6 +843,9 @@ pub enum Op {
     /// Like `MapPre`, but the client's pre-spawned entity has exactly the same id (index and
     /// generation) as the server entity, if the client's allocator can still reach it.
     MapPreSameId(u8, u8),
+    /// Like `MapPre`, but the client's pre-spawned entity already carries the replication marker
+    /// (client and server share one spawn bundle).
+    MapPreMarked(u8, u8),
     /// Client `c` allocates local entities until the next id its allocator hands out is the id
     /// (index and generation) of the server's entity in slot `s`: the next replica spawned on
     /// `c` then has the same bits as that unrelated server entity.
@@ -909,6 +912,7 @@ impl Op {
             Op::MapLate(c, s) => format!("prespawn on c{c} + map existing hidden e{}", s + 1),
             Op::MapPrePredicted(c, s) => format!("prespawn with predicted B on c{c} + map e{}{{A,B}}", s + 1),
             Op::MapPreSameId(c, s) => format!("prespawn on c{c} with the server entity's own id + map e{}", s + 1),
+            Op::MapPreMarked(c, s) => format!("prespawn with Replicated on c{c} + map e{}", s + 1),
             Op::DespawnPre(c, s) => format!("c{c} despawns its prespawned entity for e{}", s + 1),
             Op::AlignNextId(c, s) => format!("c{c} allocates local entities up to the id of the server's e{}", s + 1),
         }
@@ -961,6 +965,9 @@ pub struct Sim {
     pub prespawned: BTreeMap<(usize, u8), Entity>,
     /// Pre-spawned entities the client despawned again before the mapping arrived.
     pub pre_despawned: BTreeSet<(usize, u8)>,
+    /// (client, slot): the slot's entity was despawned while marked, visible to the client and
+    /// mapped to an entity the client had spawned in advance.
+    pub despawned_mapped: BTreeSet<(usize, u8)>,
     /// Messages the server produced for a connection that no longer exists.
     pub orphan_messages: u32,
     pub server_stopped_pending_reset: bool,
@@ -1019,6 +1026,7 @@ impl Sim {
             server_panicked: false,
             prespawned: BTreeMap::new(),
             pre_despawned: BTreeSet::new(),
+            despawned_mapped: BTreeSet::new(),
             orphan_messages: 0,
             server_stopped_pending_reset: false,
             send_forced_by_restart: false,
@@ -1293,7 +1301,7 @@ impl Sim {
             Op::ClearOwner(s) => self.alive(s).is_some_and(|e| self.server.world().get::<OwnedBy>(e).is_some()),
             Op::InsBig(s, _) => self.alive(s).is_some_and(|e| !self.has_tag(e, TBIG)),
             Op::MutBig(s, _) => self.alive(s).is_some_and(|e| self.has_tag(e, TBIG)),
-            Op::MapPre(c, s) | Op::MapPreUnmarked(c, s) | Op::MapPrePredicted(c, s) | Op::MapPreSameId(c, s) => {
+            Op::MapPre(c, s) | Op::MapPreUnmarked(c, s) | Op::MapPrePredicted(c, s) | Op::MapPreSameId(c, s) | Op::MapPreMarked(c, s) => {
                 self.alive(s).is_none()
                     && !self.prespawned.contains_key(&(c as usize, s))
                     && self.is_authorized(c as usize)
@@ -1402,7 +1410,7 @@ impl Sim {
                 self.last_edit.insert((s + 1, TA), (v, None));
                 self.last_edit.insert((s + 1, TB), (v, None));
             }
-            Op::MapPreSameId(_, s) => {
+            Op::MapPreSameId(_, s) | Op::MapPreMarked(_, s) => {
                 self.last_edit.insert((s + 1, TA), (v, None));
             }
             Op::MapPre(_, s) | Op::MapPreUnmarked(_, s) | Op::MapPreEarly(_, s) => {
@@ -1450,6 +1458,18 @@ impl Sim {
             }
             Op::Despawn(s) => {
                 let e = self.alive(s).unwrap();
+                if self.marked(s) {
+                    let keys: Vec<(usize, u8)> = self.prespawned.keys().filter(|k| k.1 == s).copied().collect();
+                    for (c, _) in keys {
+                        if self.is_authorized(c)
+                            && self.visible_now(c, e.to_bits())
+                            && !self.late_map_tick.contains_key(&(c, s))
+                            && !self.pre_despawned.contains(&(c, s))
+                        {
+                            self.despawned_mapped.insert((c, s));
+                        }
+                    }
+                }
                 self.server.world_mut().entity_mut(e).despawn();
                 let bits = e.to_bits();
                 let keys: Vec<_> = self
@@ -1624,6 +1644,19 @@ impl Sim {
                         "c{c}'s allocator cannot reach {id} any more (it handed out {e})"
                     );
                 }
+            }
+            Op::MapPreMarked(c, s) => {
+                let etag = s + 1;
+                let pre = self.clients[c as usize].app.world_mut().spawn(Replicated).id();
+                self.prespawned.insert((c as usize, s), pre);
+                let id = self.server.world_mut().spawn((Replicated, A(val(etag, TA, v)))).id();
+                self.ents[s as usize] = Some(id);
+                let conn = self.clients[c as usize].conn.unwrap();
+                self.server
+                    .world_mut()
+                    .get_mut::<ClientEntityMap>(conn)
+                    .expect("authorized client has an entity map")
+                    .insert(id, pre);
             }
             Op::MapPrePredicted(c, s) => {
                 let etag = s + 1;
@@ -2174,10 +2207,13 @@ impl Sim {
                     .push(format!("to_server[{ce}]={s} has no forward entry"));
             }
         }
+        // (an entity the game itself spawned with the marker, ahead of its mapping, is the
+        // game's, not replicated state)
+        let own: BTreeSet<Entity> = self.prespawned.iter().filter(|(k, _)| k.0 == c).map(|(_, e)| *e).collect();
         let world = app.world_mut();
         let mut q = world.query_filtered::<Entity, With<Replicated>>();
         for e in q.iter(world) {
-            if !mapped_clients.contains(&e) {
+            if !mapped_clients.contains(&e) && !own.contains(&e) {
                 view.unmapped_replicated.push(e.to_bits());
             }
         }
